@@ -107,6 +107,8 @@ def run(ctx):
         c = ctx.find_calls(f, r"::Core::start$")
         ctx.ob("C06.who.parse-body-dispatch", f.key, "Core::start(di)", len(c) == 1 and ctx.expr(f, c[0][1]["args"][0]) == "a1", "OuterFrom::start delegates to Core::start(di)")
 
+    # Flag (the type of the derive-time `flatten` option) relies on `()` rejecting every non-word form
+    common.unit_rejects_non_words(ctx, "C06.who.unit-overrides-only-from-word", core)
     # ------------------------------------------------------------ T / D on derive-time code
     n = common.acc_typestate(ctx, "C06.T.no-live-drop", bodies)
     ctx.floor("C06.T", "derive-time functions holding an accumulator", n, 8)
